@@ -8,7 +8,6 @@ import (
 	"fmt"
 	"iter"
 	"maps"
-	"math/big"
 	"sort"
 	"strings"
 	"testing"
@@ -187,6 +186,8 @@ func c10Value(h *HybridLogicalVector, s string) uint64 {
 var c10KnownReported int
 
 type c10Run struct {
+	evTerms  []string
+	obsTerms []string // "(outcome) (vector)" per event, for the tree form
 	rec      *vRecorder
 	ctx      context.Context
 	evs      []c10Ev
@@ -199,8 +200,8 @@ type c10Run struct {
 
 // reprMonitors: the accepted / merged / edited vector records precisely the versions its replica has seen
 func (run *c10Run) reprMonitors(kind string, upto int, rep *c10Replica, before, incoming *HybridLogicalVector) {
-	if run.tainted && kind != "same-merge" {
-		return
+	if run.tainted {
+		return // after a same-merge acceptance the vector no longer represents the seen set (known finding)
 	}
 	// The one known defect (known_findings.json): a pull accepted on the same-merge rule drops the puller's own
 	// current version.  Exactly that failure gets the known signature; anything else gets its own.
@@ -278,7 +279,7 @@ func (run *c10Run) reprMonitors(kind string, upto int, rep *c10Replica, before, 
 }
 
 // c10RunHistory executes the events on the real API, emits one Coq case and runs the monitors
-func c10RunHistory(rec *vRecorder, ctx context.Context, stream string, evs []c10Ev) *c10Run {
+func c10RunHistory(rec *vRecorder, ctx context.Context, stream string, evs []c10Ev, emit bool) *c10Run {
 	run := &c10Run{rec: rec, ctx: ctx, evs: evs}
 	reps := map[int]*c10Replica{}
 	for i := 1; i <= 3; i++ {
@@ -402,9 +403,16 @@ func c10RunHistory(rec *vRecorder, ctx context.Context, stream string, evs []c10
 		}
 		evTerms = append(evTerms, e.coq())
 		obsTerms = append(obsTerms, "("+outcome+", "+c10H(rep.hlv)+")")
+		run.obsTerms = append(run.obsTerms, outcome+" "+c10H(rep.hlv))
 	}
+	run.evTerms = evTerms
 	nontrivial := run.merges > 0 && run.ffs > 0
-	rec.Case(stream, "history", "CHistory "+cqList(evTerms)+" "+cqList(obsTerms), map[string]any{"events": evs}, nontrivial)
+	if emit {
+		rec.Case(stream, "history", "CHistory "+cqList(evTerms)+" "+cqList(obsTerms), map[string]any{"events": evs}, nontrivial)
+	} else {
+		key := strings.Join(evTerms, ";")
+		rec.Count(stream, "history", key, nontrivial)
+	}
 	rec.Size(fmt.Sprintf("history-len-%02d", len(evs)/5*5))
 	return run
 }
@@ -525,6 +533,9 @@ func c10Unary(rec *vRecorder, stream string, h *HybridLogicalVector, ss []int, v
 	for _, v := range vs {
 		vsT = append(vsT, cqN(v))
 	}
+	if h.SourceID != "" && !h.DominatesSource(Version{SourceID: h.SourceID, Value: h.Version}) {
+		rec.Fail("nothing_lost", "own-cv-not-dominated", map[string]any{"h": c10Desc(h)}, "a vector does not dominate its own current version")
+	}
 	for _, s := range ss {
 		name := c10Names[s]
 		ssT = append(ssT, cqI(s))
@@ -586,6 +597,7 @@ func c10BinRow(rec *vRecorder, stream string, h *HybridLogicalVector, incs []*Hy
 
 func TestVerifC10(t *testing.T) {
 	rec := vNewRecorder(t, "C10", "C10.C10_Corr")
+	rec.shardSize = 450
 	defer rec.Finish()
 	c10KnownReported = 0
 	rnd := vNewRand(vSeed())
@@ -602,15 +614,20 @@ func TestVerifC10(t *testing.T) {
 	{
 		// exhaustive IsInConflict table over the 324 small vectors (local x incoming)
 		var hs, rows []string
+		var codes []uint64
 		for _, a := range small {
 			hs = append(hs, c10H(a))
-			row := new(big.Int)
-			for j := len(small) - 1; j >= 0; j-- {
-				row.Mul(row, big.NewInt(4))
-				row.Add(row, big.NewInt(int64(IsInConflict(ctx, a, small[j]))))
+			for _, b := range small {
+				codes = append(codes, uint64(IsInConflict(ctx, a, b)))
 				rec.Count("exhaustive", "is_in_conflict_pair", "", false)
 			}
-			rows = append(rows, row.String())
+		}
+		for i := 0; i < len(codes); i += 27 {
+			var packed uint64
+			for j := min(i+27, len(codes)) - 1; j >= i; j-- {
+				packed = packed*4 + codes[j]
+			}
+			rows = append(rows, cqN(packed))
 		}
 		rec.Case("exhaustive", "conflict_table", "CConflictTable "+cqList(hs)+" "+cqList(rows), map[string]any{"vectors": len(small), "pairs": len(small) * len(small)}, true)
 	}
@@ -680,7 +697,7 @@ func TestVerifC10(t *testing.T) {
 		totSame += run.same
 	}
 	for _, h := range corpus {
-		tally(c10RunHistory(rec, ctx, "corpus", h))
+		tally(c10RunHistory(rec, ctx, "corpus", h, true))
 	}
 	// bounded-exhaustive: every sequence of edit / pull events of length depth over three replicas (clock at 0)
 	var alphabet []c10Ev
@@ -696,12 +713,33 @@ func TestVerifC10(t *testing.T) {
 	if vThorough() {
 		depth = 5
 	}
+	// every sequence is run from scratch on the real code (with the monitors); the observations are then
+	// arranged as one tree per first event, so that the model re-checks each shared prefix once
+	type c10Node struct {
+		ev, obs string
+		kids    []*c10Node
+		index   map[string]*c10Node
+	}
+	roots := &c10Node{index: map[string]*c10Node{}}
 	var enum func(prefix []c10Ev)
 	nExh := 0
 	enum = func(prefix []c10Ev) {
 		if len(prefix) == depth {
-			tally(c10RunHistory(rec, ctx, "exhaustive", append([]c10Ev{}, prefix...)))
+			run := c10RunHistory(rec, ctx, "exhaustive", append([]c10Ev{}, prefix...), false)
+			tally(run)
 			nExh++
+			n := roots
+			for i, et := range run.evTerms {
+				k, ok := n.index[et]
+				if !ok {
+					k = &c10Node{ev: et, obs: run.obsTerms[i], index: map[string]*c10Node{}}
+					n.index[et] = k
+					n.kids = append(n.kids, k)
+				} else if k.obs != run.obsTerms[i] {
+					rec.Fail("deterministic", "same-prefix-different-result", map[string]any{"history": prefix[:i+1]}, "the same events gave two different results: "+k.obs+" / "+run.obsTerms[i])
+				}
+				n = k
+			}
 			return
 		}
 		for _, e := range alphabet {
@@ -712,6 +750,21 @@ func TestVerifC10(t *testing.T) {
 		}
 	}
 	enum(nil)
+	var render func(n *c10Node) (string, int)
+	render = func(n *c10Node) (string, int) {
+		var ks []string
+		cnt := 1
+		for _, k := range n.kids {
+			t, c := render(k)
+			ks = append(ks, t)
+			cnt += c
+		}
+		return "(HT (" + n.ev + ") " + n.obs + " " + cqList(ks) + ")", cnt
+	}
+	for _, r := range roots.kids {
+		t, cnt := render(r)
+		rec.Case("exhaustive", "history_tree", "CHistoryTree "+t, map[string]any{"first_event": r.ev, "nodes": cnt, "depth": depth}, true)
+	}
 	rec.Extra("exhaustive_history_depth", depth)
 	rec.Extra("exhaustive_histories", nExh)
 	// random histories
@@ -742,7 +795,7 @@ func TestVerifC10(t *testing.T) {
 				h = append(h, c10Ev{Kind: "restart", R: r})
 			}
 		}
-		tally(c10RunHistory(rec, ctx, "random-valid", h))
+		tally(c10RunHistory(rec, ctx, "random-valid", h, true))
 	}
 	rec.Extra("history_merges", totMerges)
 	rec.Extra("history_fast_forwards", totFF)
@@ -750,6 +803,9 @@ func TestVerifC10(t *testing.T) {
 
 	// ================= (C) codecs =================
 	c10Codecs(t, rec, rnd)
+
+	// ================= (D) versions generated by the gateway itself (documentUpdateFunc / updateHLV) =================
+	c10Gateway(t, rec, rnd)
 	rec.Extra("exhaustive", true)
 }
 
@@ -1074,6 +1130,29 @@ func c10Codecs(t *testing.T, rec *vRecorder, rnd *vRand) {
 		if err == nil {
 			r = "(Some (" + c10S(h, nil, nil) + ", " + c10StrList(legacy) + "))"
 			rec.Err("wire_parse:ok")
+			// whatever the parser accepts is structurally valid
+			for k := range h.PreviousVersions {
+				if _, both := h.MergeVersions[k]; both {
+					rec.Fail("wire_parse_wellformed", "wire-accepted-source-in-mv-and-pv", map[string]any{"in": in, "vector": c10Desc(h)}, "accepted wire string lists source "+k+" in mv and in pv")
+				}
+			}
+			if v, ok := h.MergeVersions[h.SourceID]; ok && v == h.Version {
+				rec.Fail("wire_parse_wellformed", "wire-accepted-cv-in-mv", map[string]any{"in": in, "vector": c10Desc(h)}, "accepted wire string repeats cv in mv")
+			}
+			// no source twice inside mv / inside pv: count the entries that parse as versions
+			cnt := func(section string) int {
+				n := 0
+				for _, e := range strings.Split(section, ",") {
+					if _, perr := ParseVersion(strings.TrimPrefix(e, " ")); perr == nil {
+						n++
+					}
+				}
+				return n
+			}
+			secs := strings.Split(in, ";")
+			if cnt(secs[0]) != 1+len(h.MergeVersions) || (len(secs) > 1 && cnt(secs[1]) != len(h.PreviousVersions)) {
+				rec.Fail("wire_parse_wellformed", "wire-accepted-duplicate-source", map[string]any{"in": in, "vector": c10Desc(h)}, "accepted wire string has more entries than the vector: a source listed twice was merged")
+			}
 		} else {
 			rec.Err("wire_parse:error")
 		}
@@ -1148,5 +1227,65 @@ func c10Codecs(t *testing.T, rec *vRecorder, rnd *vRand) {
 			}
 		}
 		parseCase("random-malformed", string(b))
+	}
+}
+
+// c10Gateway: real writes through a database collection with an adversarial wall clock (stuck, going
+// backwards, restarted behind): the cv of every local write must be of our source and strictly above the
+// previous value recorded for our source.  Ties the floor computed in documentUpdateFunc and updateHLV.
+func c10Gateway(t *testing.T, rec *vRecorder, rnd *vRand) {
+	db, ctx := setupTestDB(t)
+	defer db.Close(ctx)
+	collection, ctx := GetSingleDatabaseCollectionWithUser(ctx, t, db)
+	base0 := sgbucket.HLCWallClock() - uint64(3600)*1_000_000_000 // an hour behind the bucket: never ahead of the CAS
+	phys := base0
+	db.hlc.SetClockForTest(func() uint64 { return phys })
+	nDocs := vBudget(3, 12)
+	for d := 0; d < nDocs; d++ {
+		docID := fmt.Sprintf("c10doc%d", d)
+		var sched []string
+		rev, doc, err := collection.Put(ctx, docID, Body{"n": 0})
+		if err != nil || doc.HLV == nil {
+			rec.Fail("local_versions_increase", "gateway-write-failed", map[string]any{"doc": docID, "step": 0}, fmt.Sprintf("first write failed: %v", err))
+			continue
+		}
+		last := doc.HLV.Version
+		for i := 1; i <= 8; i++ {
+			var what string
+			switch rnd.Intn(5) {
+			case 0:
+				what = "same"
+			case 1:
+				what = "back"
+				phys -= uint64(1+rnd.Intn(1000)) * 1_000_000
+			case 2:
+				what = "restart-behind" // a new clock (high-water mark lost) reading an earlier time
+				phys = base0 - uint64(1+rnd.Intn(1000))*1_000_000_000
+				db.hlc.SetClockForTest(func() uint64 { return phys })
+			case 3:
+				what = "forward"
+				phys += uint64(1+rnd.Intn(1000)) * 1_000
+			default:
+				what = "restart-same"
+				db.hlc.SetClockForTest(func() uint64 { return phys })
+			}
+			sched = append(sched, what)
+			var err error
+			rev, doc, err = collection.Put(ctx, docID, Body{"n": i, BodyRev: rev})
+			rec.Count("gateway", "gateway_write", fmt.Sprintf("%d|%s", d, strings.Join(sched, ",")), what != "same" && what != "forward")
+			if err != nil || doc == nil || doc.HLV == nil {
+				rec.Fail("local_versions_increase", "gateway-write-failed", map[string]any{"doc": docID, "clock_schedule": sched, "previous_version": last}, fmt.Sprintf("local write failed: %v", err))
+				break
+			}
+			if doc.HLV.SourceID != db.EncodedSourceID || doc.HLV.Version <= last {
+				rec.Fail("local_versions_increase", "gateway-version-not-increasing", map[string]any{"doc": docID, "clock_schedule": sched, "previous_version": last, "new_version": doc.HLV.Version, "source": doc.HLV.SourceID},
+					fmt.Sprintf("cv after a local write is %d@%s, previous value for our source %d", doc.HLV.Version, doc.HLV.SourceID, last))
+				break
+			}
+			if _, inPV := doc.HLV.PreviousVersions[doc.HLV.SourceID]; inPV {
+				rec.Fail("no_source_twice", "gateway-cv-source-in-pv", map[string]any{"doc": docID, "vector": c10Desc(doc.HLV)}, "cv source also listed in pv after a local write")
+			}
+			last = doc.HLV.Version
+		}
 	}
 }
